@@ -32,6 +32,8 @@ pub enum Target
     Named(u8, F),
     NamedDirect(u8, F),
     Spawned(u8),
+    /// `World::syscall_once`: a fresh system every time (no key, no persistent state)
+    Once(F),
 }
 
 #[derive(Debug, Clone, PartialEq, Eq, Hash, Serialize, Deserialize)]
@@ -57,6 +59,19 @@ pub enum TopOp
     /// `Commands::spawned_syscall(slot, x)` on the unit-spawned slot table + flush
     CmdSpawned(u8, u32),
     SpawnUnit,
+    /// `IdMappedSystems::revoke` / `revoke_sysname` (bool: by sysname): the named system is forgotten
+    RevokeNamed(u8, F, bool),
+    /// `spawn_rc_system`: the spawned system lives as long as a clone of the returned signal
+    SpawnRc(F),
+    /// drop the signal of the k-th rc-spawned system and collect garbage
+    DropRc(u8),
+    /// `Commands::insert_system` on the entity of a spawned slot: replaces the stored system (fresh state)
+    InsertSystem(u8, F),
+    /// `Commands::syscall_once(x, unit_once_sys)` + flush
+    CmdSyscallOnce(u32),
+    /// `EntityCommands::syscall` (false) / `EntityCommands::syscall_once` (true) on a plain entity + flush: the same
+    /// keys as the `Commands` versions
+    EntCmdSyscall(u32, bool),
 }
 
 #[derive(Debug, Clone, PartialEq, Eq, Hash, Serialize, Deserialize, Default)]
@@ -81,6 +96,7 @@ enum Effect
     QueuedResult(Result<Out, ()>),
     Unit(u32, u32),
     UnitSpawned(u32, u32),
+    UnitOnce(u32, u32),
 }
 
 /// Expected output; `count: None` = unconstrained (a re-entrant call on a running syscall / named key runs on
@@ -101,6 +117,7 @@ enum ExpEffect
     QueuedResult(Result<ExpOut, ()>),
     Unit(u32, u32),
     UnitSpawned(u32, u32),
+    UnitOnce(u32, u32),
 }
 
 fn out_matches(got: &Result<Out, ()>, want: &Result<ExpOut, ()>) -> bool
@@ -123,6 +140,7 @@ fn effect_matches(got: &Effect, want: &ExpEffect) -> bool
         (Effect::QueuedResult(r), ExpEffect::QueuedResult(w)) => out_matches(r, w),
         (Effect::Unit(a, b), ExpEffect::Unit(c, d)) => a == c && b == d,
         (Effect::UnitSpawned(a, b), ExpEffect::UnitSpawned(c, d)) => a == c && b == d,
+        (Effect::UnitOnce(a, b), ExpEffect::UnitOnce(c, d)) => a == c && b == d,
         _ => false,
     }
 }
@@ -133,6 +151,8 @@ struct State
     effects: Vec<Effect>,
     slots: Vec<Option<SysId>>,
     unit_slots: Vec<SysId>,
+    /// (slot index, signal) of rc-spawned systems
+    rc: Vec<(usize, Option<AutoDespawnSignal>)>,
 }
 
 thread_local!
@@ -158,6 +178,9 @@ fn perform(world: &mut World, spec: &CallSpec) -> Result<Out, ()>
         Target::NamedDirect(n, F::A) => named_syscall_direct::<In<CallSpec>, Out>(world, name_of(sys_a, n), plan).map_err(|_| ()),
         Target::NamedDirect(n, F::B) => named_syscall_direct::<In<CallSpec>, Out>(world, name_of(sys_b, n), plan).map_err(|_| ()),
         Target::NamedDirect(n, F::N) => named_syscall_direct::<In<CallSpec>, Out>(world, name_of(sys_n, n), plan).map_err(|_| ()),
+        Target::Once(F::A) => Ok(world.syscall_once(plan, sys_a)),
+        Target::Once(F::B) => Ok(world.syscall_once(plan, sys_b)),
+        Target::Once(F::N) => Ok(world.syscall_once(plan, sys_n)),
         Target::Spawned(slot) =>
         {
             let id = ST.with(|s| { let s = s.borrow(); if s.slots.is_empty() { None } else { s.slots[slot as usize % s.slots.len()] } });
@@ -218,6 +241,20 @@ fn unit_sys(In(x): In<u32>, mut local: Local<u32>)
     effect(Effect::Unit(x, *local));
 }
 
+fn unit_once_sys(In(x): In<u32>, mut local: Local<u32>)
+{
+    *local += 1;
+    effect(Effect::UnitOnce(x, *local));
+}
+
+fn revoke_of<S: 'static>(_s: S, m: &mut IdMappedSystems<In<CallSpec>, Out>, id: u8, by_name: bool)
+{
+    let name = SysName::new::<S>(id);
+    // the raw constructor and the accessors describe the same name
+    assert!(SysName::new_raw::<S>(name.id()) == name && name.type_id() == std::any::TypeId::of::<S>(), "SysName accessors disagree");
+    if by_name { m.revoke_sysname(name); } else { m.revoke::<S>(id); }
+}
+
 fn unit_spawned_sys(In(x): In<u32>, mut local: Local<u32>)
 {
     *local += 1;
@@ -257,8 +294,23 @@ impl Model
     /// appended in the order the framework must apply them: after the body, before the call returns.
     fn call(&mut self, spec: &CallSpec, depth: u32) -> Result<ExpOut, ()>
     {
+        if let Target::Once(f) = spec.target
+        {
+            // a fresh system per call: count 1, nothing persists, never "running" under a key
+            if depth > 0 { self.hit("C17:nested_or_command_issued"); }
+            self.hit("C17:syscall_once");
+            let nested: Vec<Result<ExpOut, ()>> = if f == F::N { Vec::new() } else { spec.nested.iter().map(|n| self.call(n, depth + 1)).collect() };
+            self.effects.push(ExpEffect::Marker(f, spec.x, Some(1)));
+            for q in spec.queued.iter()
+            {
+                let r = self.call(q, depth + 1);
+                self.effects.push(ExpEffect::QueuedResult(r));
+            }
+            return Ok(ExpOut{ f, x: spec.x, count: Some(1), nested });
+        }
         let (key, f) = match spec.target
         {
+            Target::Once(_) => unreachable!(),
             Target::Syscall(f) => (Key::Syscall(f), f),
             Target::Named(n, f) => { self.named_exists.insert((n, f), true); (Key::Named(n, f), f) }
             Target::NamedDirect(n, f) =>
@@ -319,8 +371,11 @@ pub struct SysOutcome
 fn run_inner(case: &SysCase, out: &mut SysOutcome)
 {
     ST.with(|s| *s.borrow_mut() = State::default());
-    let mut world = World::new();
+    let mut app = App::new();
+    app.setup_auto_despawn();
+    let mut world = std::mem::take(app.world_mut());
     let mut model = Model::default();
+    let plain_entity = world.spawn_empty().id();
     for (i, op) in case.ops.iter().enumerate()
     {
         let before = ST.with(|s| s.borrow().effects.len());
@@ -382,6 +437,86 @@ fn run_inner(case: &SysCase, out: &mut SysOutcome)
                 ST.with(|s| s.borrow_mut().unit_slots.push(id));
                 model.unit_slots.push(0);
             }
+            TopOp::RevokeNamed(n, f, by_name) =>
+            {
+                if let Some(mut m) = world.get_resource_mut::<IdMappedSystems<In<CallSpec>, Out>>()
+                {
+                    match f
+                    {
+                        F::A => revoke_of(sys_a, &mut m, *n, *by_name),
+                        F::B => revoke_of(sys_b, &mut m, *n, *by_name),
+                        F::N => revoke_of(sys_n, &mut m, *n, *by_name),
+                    }
+                }
+                if model.named_exists.get(&(*n, *f)).copied().unwrap_or(false) { model.hit("C17:revoke_named"); }
+                model.named_exists.insert((*n, *f), false);
+                model.counts.insert(Key::Named(*n, *f), 0);
+            }
+            TopOp::SpawnRc(f) =>
+            {
+                let sig = match f
+                {
+                    F::A => spawn_rc_system(&mut world, sys_a),
+                    F::B => spawn_rc_system(&mut world, sys_b),
+                    F::N => spawn_rc_system(&mut world, sys_n),
+                };
+                let id = SysId::new(sig.entity());
+                ST.with(|s| { let mut s = s.borrow_mut(); s.slots.push(Some(id)); let k = s.slots.len() - 1; s.rc.push((k, Some(sig))); });
+                model.slots.push((*f, true));
+                model.hit("C17:spawn_rc");
+            }
+            TopOp::DropRc(k) =>
+            {
+                let dropped = ST.with(|s| {
+                    let mut s = s.borrow_mut();
+                    if s.rc.is_empty() { return None; }
+                    let i = *k as usize % s.rc.len();
+                    let slot = s.rc[i].0;
+                    s.rc[i].1.take().map(|sig| { drop(sig); slot })
+                });
+                // a collection with nothing dropped changes nothing
+                garbage_collect_entities(&mut world);
+                if let Some(slot) = dropped { model.slots[slot].1 = false; model.hit("C17:rc_dropped"); }
+            }
+            TopOp::InsertSystem(slot, f) =>
+            {
+                if !model.slots.is_empty()
+                {
+                    let k = *slot as usize % model.slots.len();
+                    let id = ST.with(|s| s.borrow().slots[k]).unwrap();
+                    let r = match f
+                    {
+                        F::A => world.commands().insert_system(id.entity(), sys_a),
+                        F::B => world.commands().insert_system(id.entity(), sys_b),
+                        F::N => world.commands().insert_system(id.entity(), sys_n),
+                    };
+                    world.flush();
+                    let alive = model.slots[k].1;
+                    if r.is_ok() != alive { out.violations.push(format!("op {i}: insert_system on a {} entity returned {:?}", if alive { "live" } else { "despawned" }, r)); }
+                    if alive
+                    {
+                        model.slots[k].0 = *f;
+                        model.counts.insert(Key::Spawned(k), 0);
+                        model.hit("C17:insert_system");
+                    }
+                }
+            }
+            TopOp::CmdSyscallOnce(x) =>
+            {
+                world.commands().syscall_once(*x, unit_once_sys);
+                world.flush();
+                model.effects.push(ExpEffect::UnitOnce(*x, 1));
+                model.hit("C17:commands_syscall_once");
+            }
+            TopOp::EntCmdSyscall(x, once) =>
+            {
+                if *once { world.commands().entity(plain_entity).syscall_once(*x, unit_once_sys); }
+                else { world.commands().entity(plain_entity).syscall(*x, unit_sys); }
+                world.flush();
+                if *once { model.effects.push(ExpEffect::UnitOnce(*x, 1)); }
+                else { model.unit_count += 1; model.effects.push(ExpEffect::Unit(*x, model.unit_count)); }
+                model.hit("C17:entity_commands_syscall");
+            }
             TopOp::CmdSpawned(slot, x) =>
             {
                 if !model.unit_slots.is_empty()
@@ -438,8 +573,9 @@ impl<'a> Dec<'a>
 
     fn target(&mut self) -> Target
     {
-        match self.below(8)
+        match self.below(9)
         {
+            8 => Target::Once(self.f()),
             0 | 1 => Target::Syscall(self.f()),
             2 | 3 => { let n = self.below(3) as u8; Target::Named(n, self.f()) }
             4 => { let n = self.below(3) as u8; Target::NamedDirect(n, self.f()) }
@@ -477,8 +613,14 @@ pub fn decode(bytes: &[u8], max_ops: usize) -> SysCase
     let mut case = SysCase::default();
     for _ in 0..n
     {
-        let op = match d.below(12)
+        let op = match d.below(18)
         {
+            17 => { d.next_x += 1; TopOp::EntCmdSyscall(d.next_x, d.byte() & 1 == 1) }
+            12 => { let n = d.below(3) as u8; let f = d.f(); TopOp::RevokeNamed(n, f, d.byte() & 1 == 1) }
+            13 => TopOp::SpawnRc(d.f()),
+            14 => TopOp::DropRc(d.below(3) as u8),
+            15 => { let k = d.below(4) as u8; TopOp::InsertSystem(k, d.f()) }
+            16 => { d.next_x += 1; TopOp::CmdSyscallOnce(d.next_x) }
             0 => { let n = d.below(3) as u8; TopOp::Register(n, d.f()) }
             1 => TopOp::Spawn(d.f()),
             2 => TopOp::DespawnSpawned(d.below(4) as u8),
